@@ -56,6 +56,11 @@ def roundtrip(ctx, msg, mtype, fields):
             e, v = call(fn)
             ctx.holds("getters of other message kinds return None", e is None and v is None, "%s: %s" % (k, exc_name(e) if e is not None else "returned a value"))
     ctx.holds("repack identical", r.pack() == raw)
+    # reading is repeatable: the caller's own read (after this function returns) is the third one on this object
+    if own is not None:
+        for _ in range(2):
+            e, v = call(others[own])
+            ctx.holds("reading the parameters of a message of this kind does not raise", e is None and v is not None, exc_name(e))
     pack_hands_out_fresh_buffers(ctx, msg.pack, ref)
     decoded_object_owns_its_data(ctx, MessageToUserTlv.unpack, ref_tlv(2, val), lambda x: sym_and(
         x.is_reserved_cfdp_message() == True, x.to_reserved_msg_tlv().pack() == ref), flavours=("bytearray", "memoryview"))  # noqa: E712
@@ -150,6 +155,34 @@ def h_listing(ctx, resp, n1, n2):
             v.dir_path.value == p, v.dir_file_name.value == f), exc_name(e))
 
 
+def h_names_from_text(ctx, s1, s2, resp):
+    """names handed over as text (DirectoryParams.from_strs / CfdpLv.from_str): the LV length counts the UTF-8 octets"""
+    p, f = ctx.text("path", s1), ctx.text("file", s2)
+    pb, fb = items_of(p.encode()), items_of(f.encode())
+    e, lv = call(CfdpLv.from_str, p)
+    ctx.holds("CfdpLv.from_str: length octet == number of UTF-8 octets", e is None and sym_and(
+        lv.pack() == ctx.bytes_of(ref_lv(pb)), lv.packet_len == len(pb) + 1, lv.value_len == len(pb)), exc_name(e))
+    params = DirectoryParams.from_strs(p, f)
+    ok = ctx.flag("success")
+    if resp:
+        r = roundtrip(ctx, DirectoryListingResponse(ok != 0, params), 0x11, [ok << 7] + ref_lv(pb) + ref_lv(fb))
+    else:
+        r = roundtrip(ctx, DirectoryListingRequest(params), 0x10, ref_lv(pb) + ref_lv(fb))
+    if r is None:
+        return
+    e, v = call(r.get_dir_listing_response_params if resp else r.get_dir_listing_request_params)
+    got = None if e is not None or v is None else (v[1] if resp else v)
+    ctx.holds("names given as text come back as the same text", got is not None and sym_and(
+        got.dir_path.value == ctx.bytes_of(pb), got.dir_file_name.value == ctx.bytes_of(fb)), exc_name(e))
+    did = ctx.int("dest_id", 0, 255)
+    msg = ProxyPutRequest(ProxyPutRequestParams(UnsignedByteField(did, 1), CfdpLv.from_str(p), CfdpLv.from_str(f)))
+    r2 = roundtrip(ctx, msg, 0x00, ref_lv(be(did, 1)) + ref_lv(pb) + ref_lv(fb))
+    if r2 is not None:
+        e, q = call(r2.get_proxy_put_request_params)
+        ctx.holds("put request with names given as text: parameters returned exactly", e is None and q is not None and sym_and(
+            q.source_file_name.value == ctx.bytes_of(pb), q.dest_file_name.value == ctx.bytes_of(fb)), exc_name(e))
+
+
 def h_other_content(ctx, n):
     """any other message-to-user content: the reserved-message test answers a bool and never raises"""
     msg = ctx.octets("msg", n)
@@ -233,6 +266,11 @@ def cases(tier):
         for n1, n2 in lens:
             cs.append(Case("listing-%s-%d-%d" % ("resp" if resp else "req", n1, n2), "listing", h_listing, dict(resp=resp, n1=n1, n2=n2),
                            bounds="directory path / file name of %d/%d octets (all values)" % (n1, n2)))
+    for s1, s2 in tier_pick(tier, (((2,), (1,)), ((1, 2), (3,))), (((2,), (1,)), ((1, 2), (3,)), ((4,), (2, 2)), ((), (2,)), ((1,), ()))):
+        for resp in (False, True):
+            cs.append(Case("text-names-%s-%s-%s" % ("resp" if resp else "req", "".join(map(str, s1)) or "e", "".join(map(str, s2)) or "e"),
+                           "listing", h_names_from_text, dict(s1=s1, s2=s2, resp=resp),
+                           bounds="names given as text whose code points take %s / %s UTF-8 octets (all such texts)" % (s1, s2)))
     for n in range(0, tier_pick(tier, 9, 13)):
         cs.append(Case("other-n%d" % n, "other", h_other_content, dict(n=n), bounds="every message content of %d octets" % n))
     return cs
